@@ -29,6 +29,9 @@ type Case struct {
 	Bit      int    `json:"bit,omitempty"`
 	Byte     int    `json:"byte,omitempty"`       // 0: single bit flip; else XOR mask for a byte edit
 	LeafIsCA bool   `json:"leaf_is_ca,omitempty"` // the presented (client) certificate carries CA:TRUE (a sub-CA certificate used for client auth)
+	// LeafOnly: the verified chain consists of the client certificate alone (it is pinned in the trust pool); its issuing CA
+	// is known to the validator as a configured trusted signer only
+	LeafOnly bool `json:"leaf_only,omitempty"`
 	// Background: crl_fetch_mode fetch_background (the first load happens in a refresh run, not in the handshake)
 	Background bool `json:"background,omitempty"`
 	// FailFirst (intake first): before the offered document is served, one load attempt fails on
@@ -63,6 +66,7 @@ func genCase(t *rapid.T) Case {
 		Forgery:  rapid.SampledFrom(forgeries).Draw(t, "forgery"),
 		LeafIsCA: rapid.IntRange(0, 3).Draw(t, "leafisca") == 0,
 	}
+	c.LeafOnly = rapid.IntRange(0, 3).Draw(t, "leafonly") == 0
 	c.Background = rapid.IntRange(0, 2).Draw(t, "background") == 0
 	c.FailFirst = rapid.SampledFrom([]string{"", "", "garbage", "http500", "truncated", "same"}).Draw(t, "failfirst")
 	c.ExtraTrusted = rapid.IntRange(0, 6).Draw(t, "extratrusted")
@@ -122,6 +126,9 @@ func runCase(c Case, x *ev.Ctx) error {
 		ch := []*x509.Certificate{l.Cert, ca.Cert}
 		if c.Depth == 2 {
 			ch = append(ch, root.Cert)
+		}
+		if c.LeafOnly {
+			ch = ch[:1]
 		}
 		return [][]*x509.Certificate{ch}
 	}
@@ -259,7 +266,7 @@ func runCase(c Case, x *ev.Ctx) error {
 
 	// reference authenticity (independent of how the case was built)
 	admissible := []*x509.Certificate{ca.Cert}
-	if c.Depth == 2 {
+	if c.Depth == 2 && !c.LeafOnly {
 		admissible = append(admissible, root.Cert)
 	}
 	admissible = append(admissible, trusted.Cert)
@@ -272,6 +279,9 @@ func runCase(c Case, x *ev.Ctx) error {
 	}
 
 	trustedList := []*x509.Certificate{trusted.Cert}
+	if c.LeafOnly {
+		trustedList = append(trustedList, ca.Cert) // nothing above the end-entity in the chain: the CA is a configured trusted signer
+	}
 	for i := 0; i < c.ExtraTrusted; i++ {
 		extra := gen.Issue(gen.CertSpec{Key: "p256d", Subject: gen.CN(fmt.Sprintf("%s other signer %d", name, i)), SerialHex: fmt.Sprintf("40%02x", i), KeyUsage: "crlonly", NoEKU: true, ForceSKI: true}, unrelated)
 		trustedList = append(trustedList, extra.Cert)
@@ -412,7 +422,7 @@ func runCase(c Case, x *ev.Ctx) error {
 		// acceptance of authentic lists is C01/C06 territory, but a harness that rejects everything would be vacuous
 		return fmt.Errorf("authentic CRL (forgery=%s alg=%s key=%s aki=%s intake=%s pem=%v) was NOT taken into force", c.Forgery, c.Alg, c.CAKey, c.AKI, c.Intake, c.PEM)
 	}
-	x.NonTrivial(fmt.Sprintf("%s|%s|%s|%s|%s|%s|%d|%v|%d|%v", c.Forgery, c.Region, c.Alg, c.AKI, c.Intake, c.CAKey, c.Depth, c.Pos%64, c.ExtraTrusted, c.Interleave))
+	x.NonTrivial(fmt.Sprintf("%s|%s|%s|%s|%s|%s|%d|%v|%d|%v|%v", c.Forgery, c.Region, c.Alg, c.AKI, c.Intake, c.CAKey, c.Depth, c.Pos%64, c.ExtraTrusted, c.Interleave, c.LeafOnly))
 	return nil
 }
 
